@@ -327,7 +327,8 @@ def check_ym(acc, pendulum, y, mo, rest, n):
             acc.mismatch("reuse", f"years-months/{order}", case, [res[0], res[1]], [wa, fresh[1]])
 
 
-FLOAT_BUILT = [{"seconds": 1 / 3}, {"seconds": 0.1234567}, {"microseconds": 0.25}, {"hours": 1, "microseconds": 0.375},
+FLOAT_BUILT = [{"milliseconds": 1500}, {"seconds": 1, "milliseconds": 250}, {"hours": -1, "milliseconds": -7}, {"days": 2, "milliseconds": 86400001},
+               {"seconds": 1 / 3}, {"seconds": 0.1234567}, {"microseconds": 0.25}, {"hours": 1, "microseconds": 0.375},
                {"minutes": 0.1}, {"days": 0.5, "microseconds": 0.6}, {"milliseconds": 0.0015}, {"seconds": -2 / 3},
                {"weeks": 0.1, "seconds": 0.0000004}, {"hours": -0.3333333}, {"seconds": 1.0000005}, {"microseconds": -0.5}]
 
